@@ -628,6 +628,25 @@ type RangeArg struct {
 	rbs RangeArgBdrySlice
 }
 
+// A range boundary that is not 'min' or 'max' is an integer-value or a
+// decimal-value: an optional '-', digits, and optionally '.' and digits.
+func rangeBoundaryOK(s string) bool {
+	s = strings.TrimPrefix(s, "-")
+	intPart, fracPart, hasFrac := strings.Cut(s, ".")
+	allDigits := func(d string) bool {
+		if len(d) == 0 {
+			return false
+		}
+		for i := 0; i < len(d); i++ {
+			if d[i] < '0' || d[i] > '9' {
+				return false
+			}
+		}
+		return true
+	}
+	return allDigits(intPart) && (!hasFrac || allDigits(fracPart))
+}
+
 func (a *RangeArg) Parse() error {
 	str := string(a.arg)
 	ErrInval := errors.New("invalid argument: " + str)
@@ -652,6 +671,9 @@ func (a *RangeArg) Parse() error {
 			case "min":
 				r.Min = true
 			default:
+				if !rangeBoundaryOK(rbs[0]) {
+					return ErrInval
+				}
 				r.Start = rbs[0]
 				r.End = rbs[0]
 			}
@@ -660,12 +682,18 @@ func (a *RangeArg) Parse() error {
 			case "min":
 				r.Min = true
 			default:
+				if !rangeBoundaryOK(rbs[0]) {
+					return ErrInval
+				}
 				r.Start = rbs[0]
 			}
 			switch rbs[1] {
 			case "max":
 				r.Max = true
 			default:
+				if !rangeBoundaryOK(rbs[1]) {
+					return ErrInval
+				}
 				r.End = rbs[1]
 			}
 		default:
